@@ -10,7 +10,8 @@
      upd{pos, field, val, how, path}   a runtime update of one field of context pos was pushed through `path`
                            (sds-push: SetSecret on the running provider; config-update[:same-file-rewritten|:other-file|
                            :inline-material]: listener TLS update / new manager with the same name, which also
-                           re-configures the SDS providers in place). Contexts carry the realised source of their
+                           re-configures the SDS providers in place; ...:racing-...: the SDS rotation and the config update
+                           ran in two goroutines following the gate-level schedule `sched`, both have returned). Contexts carry the realised source of their
                            material (casrc/certsrc inline|file|sds, capath/certpath), informational for the judgement
      up{cfg, upds, cert, ok, upplain}   a real clientContextManager handshake towards a stock crypto/tls server;
                            upplain = the upstream received a plaintext connection instead *)
@@ -35,19 +36,19 @@ B(b) == IF b THEN "1" ELSE "0"
 UpdOf(j) == [pos |-> j.pos, field |-> j.field, val |-> IF j.field \in {"names", "alpn"} THEN ToSet(j.val) ELSE j.val, how |-> j.how]
 
 TraceInit == /\ l = 1 /\ cs = [side |-> "srv", ctxs |-> <<>>, insp |-> FALSE] /\ hist = NoHist
-             /\ live = <<>> /\ todo = <<>> /\ pools = {}
+             /\ live = <<>> /\ todo = <<>> /\ pools = {} /\ rc = <<>>
              /\ pc = "done" /\ i = 0 /\ dflt = 0 /\ afirst = 0 /\ chosen = 0 /\ served = "-" /\ result = "-"
 
 TMgr == /\ IsEvent("mgr")
         /\ cs' = [side |-> "srv", ctxs |-> CtxsOf(Ev.ctxs), insp |-> Ev.insp] /\ hist' = NoHist
-        /\ UNCHANGED <<live, todo, pools, pc, i, dflt, afirst, chosen, served, result>>
+        /\ UNCHANGED <<live, todo, rc, pools, pc, i, dflt, afirst, chosen, served, result>>
 
 (* the policy in force is the last pushed one: from here on handshakes are judged by the updated list *)
 TUpd == /\ IsEvent("upd")
         /\ Ev.pos \in 0..Len(cs.ctxs)
         /\ LET nl == ApplyUpd(Listener(cs), UpdOf(Ev)) IN cs' = [cs EXCEPT !.ctxs = nl.ctxs, !.insp = nl.insp]
         /\ hist' = [last |-> Ev.field, path |-> Ev.path, prev |-> hist.prev \cup {Listener(cs)}]
-        /\ UNCHANGED <<live, todo, pools, pc, i, dflt, afirst, chosen, served, result>>
+        /\ UNCHANGED <<live, todo, rc, pools, pc, i, dflt, afirst, chosen, served, result>>
 
 (* a plaintext client; after an update the failing class names the updated field and the path it took *)
 KP(kind) == IF hist.last = "-" THEN kind ELSE "update:" \o hist.last \o ":" \o hist.path \o ":" \o kind
